@@ -1,7 +1,7 @@
 """C12 — Borda orders elements by mean positional score, per the documented variants."""
 from fractions import Fraction
 from hypothesis import strategies as st
-from vlib import gen, lib, configs, oracle
+from vlib import gen, lib, configs, oracle, mutate
 from vlib.harness import HypSub
 from vlib.lib import Violation
 from checks.common_alg import well_formed
@@ -29,6 +29,32 @@ UNI = [gen.PRESETS["unifying"], gen.PRESETS["unifying_half"]]
 IND = [gen.PRESETS["induced"], gen.PRESETS["induced_half"]]
 
 
+
+@st.composite
+def preludes(draw):
+    """what the long-lived algorithm instance of a case did BEFORE the case's own dataset: nothing, or a run on another
+    small dataset (tie-free and complete half of the time), under some scheme"""
+    if draw(st.integers(0, 2)) == 0:
+        return None
+    shape = draw(st.sampled_from(["complete", "complete", "incomplete", "near_unanimous", "identical"]))
+    ds = draw(gen.datasets(max_n=5, max_m=3, shapes=[shape], kinds=("dense", "str"), allow_empty_rankings=False))
+    if draw(st.booleans()):
+        ds["rankings"] = [[[e] for b in r for e in b] for r in ds["rankings"]]          # break every tie
+    return {"rankings": ds["rankings"], "scheme": draw(gen.preset_multiples(["unifying", "induced", "unifying_half"]))}
+
+
+def run_prelude(algs, prelude):
+    if not prelude:
+        return
+    d0, s0 = lib.mk_dataset(prelude["rankings"]), lib.mk_scheme(prelude["scheme"])
+    for a in algs:
+        try:
+            with lib.quiet():
+                a.compute_consensus_rankings(d0, s0, True)
+        except Exception:  # noqa  (a refusal of the prelude is not the subject)
+            pass
+
+
 @st.composite
 def cases(draw, tier):
     big = tier == "thorough"
@@ -45,7 +71,8 @@ def cases(draw, tier):
     return {"scheme": scheme, "dataset": ds, "bucket_id": draw(st.booleans()), "family": fam,
             "perm": list(draw(st.permutations(list(range(m))))),
             "rename": list(draw(st.permutations(list(range(n))))),
-            "flag": draw(st.booleans())}
+            "flag": draw(st.booleans()), "prelude": draw(preludes()),
+            "via_mutation": draw(mutate.via_strategy(ds["rankings"], p=4))}
 
 
 def borda_reference(rankings, univ, unify, bucket_id):
@@ -69,8 +96,17 @@ def borda_reference(rankings, univ, unify, bucket_id):
 def check(case, ctx):
     # generation dominates the cost: the drawn scheme, then each accepted family scaled by a factor taken from the case
     # ONE instance per variant and ONE Dataset object serve the whole batch (state kept between runs must not leak)
-    shared = {True: BordaCount(use_bucket_id=True), False: BordaCount(use_bucket_id=False),
-              "d": lib.mk_dataset(case["dataset"]["rankings"])}
+    shared = {True: BordaCount(use_bucket_id=True), False: BordaCount(use_bucket_id=False)}
+    run_prelude([shared[True], shared[False]], case.get("prelude"))
+    first = lib.mk_scheme(case["scheme"])
+
+    def warm(d0):
+        for a in (shared[True], shared[False]):
+            try:
+                a.compute_consensus_rankings(d0, first, case["flag"])
+            except Exception:  # noqa
+                pass
+    shared["d"] = mutate.build(case["dataset"]["rankings"], case.get("via_mutation"), warm)
     check_one(case, ctx, shared)
     if case.get("batched", True):
         k = gen.DYADIC_FACTORS[len(case["perm"]) % len(gen.DYADIC_FACTORS)]
